@@ -123,6 +123,7 @@ type FuncContract struct {
 	Trusted  bool
 	Requires []Clause
 	Ensures  []Clause
+	Reach    []Clause // acceptance witnesses: some return path satisfies the clause
 	Modifies []SExpr
 	Decr     SExpr
 	Reveal   []string
@@ -537,7 +538,7 @@ func (p *specParser) primary() SExpr {
 // ---------- declaration parsing ----------
 
 var clauseKeywords = map[string]bool{
-	"requires": true, "ensures": true, "modifies": true, "decreases": true, "reveal": true, "opaque": true,
+	"requires": true, "ensures": true, "reach": true, "modifies": true, "decreases": true, "reveal": true, "opaque": true,
 	"uses": true, "prop": true, "trusted": true, "invariant": true, "panics_when": true, "inline": true,
 	"induction": true, "trigger": true, "expect": true, "fuel": true, "exempt": true, "cover": true, "nopanic": true, "uses_post": true, "panic_requires": true,
 }
@@ -729,6 +730,20 @@ func parseSpecText(pkg string, lines []string) (sf *SpecFile, err error) {
 			} else {
 				panic(fmt.Errorf("spec: stray ensures"))
 			}
+		case "reach":
+			// reach [label] expr: some explored return of the function satisfies expr (an acceptance witness: evaluated at the
+			// return, where the function's locals are in scope as well as parameters and results)
+			text, tag := it.text, ""
+			if strings.HasPrefix(text, "[") {
+				if j := strings.Index(text, "]"); j > 0 {
+					tag = strings.TrimSpace(text[1:j])
+					text = strings.TrimSpace(text[j+1:])
+				}
+			}
+			if curF == nil {
+				panic(fmt.Errorf("spec: stray reach"))
+			}
+			curF.Reach = append(curF.Reach, Clause{E: mustExpr(text), Text: text, Tag: tag})
 		case "invariant":
 			if curLoop == nil {
 				panic(fmt.Errorf("spec: invariant outside loop"))
